@@ -290,6 +290,58 @@ def tree_case(rng, entries, n_files=6):
 
 
 # --------------------------------------------------------------------------
+# headers written by hand (for --merge-copyrights histories) and the ground truth of what a history has stated
+
+#: year forms a person writes by hand and the reader knows: one year, a range with or without a blank on either side of the dash
+HAND_YEARS = ["2009-2014", "2009 -2014", "2009- 2014", "2009 - 2014", "2012", "2012,", "1998", "2003-2004", "2016 - 2019", None]
+#: holders none of which is part of another
+PLAIN_HOLDERS = ["Jane Doe <jane@example.com>", "Example, Inc.", "José Álvarez", "张三", "R&D Ltd.", "The FOO Developers"]
+
+
+def hand_notices(rng, holders):
+    """1-4 notices [[prefix option, year text, holder], ...] as found in a header somebody wrote: several of one holder (as left by
+    earlier runs without --merge-copyrights), compact and spaced ranges, single years, any of the ten prefixes."""
+    out = []
+    for _ in range(rng.choice([1, 2, 2, 3, 3, 4])):
+        t = [rng.choice(list(PREFIX_TEXT)), rng.choice(HAND_YEARS), holders[0] if rng.random() < 0.75 else rng.choice(holders)]
+        if t not in out:
+            out.append(t)
+    return out
+
+
+def notice_line(prefix, year, holder):
+    return "%s %s%s" % (PREFIX_TEXT[prefix], (year + " ") if year else "", holder)
+
+
+def year_option(year_text_):
+    """the --year / --exclude-year options that make annotate write this year text, or False when it cannot be said"""
+    if year_text_ is None:
+        return "exclude"
+    if re.fullmatch(r"\d{4}", year_text_):
+        return [year_text_]
+    m = re.fullmatch(r"(\d{4}) - (\d{4})", year_text_)
+    return [m.group(1), m.group(2)] if m else False
+
+
+def years_of(text):
+    return [int(x) for x in re.findall(r"(?<!\d)\d{4}(?!\d)", text or "")]
+
+
+def uncovered_years(text, stated):
+    """Reader-independent: `stated` = {holder: [years]} (generator's ground truth).  Every stated year must lie within the span
+    of four-digit years of some line of `text` that names the holder.  Returns a description or None."""
+    lines = re.split(r"\r\n|\r|\n", text)
+    for h, ys in stated.items():
+        named = [l for l in lines if h in l]
+        if not named:
+            return "holder %r is named nowhere" % (h,)
+        for y in sorted(set(ys)):
+            if not any(years_of(l) and min(years_of(l)) <= y <= max(years_of(l)) for l in named):
+                return "year %d stated for %r is outside every line naming the holder: %r" % (y, h, named)
+    return None
+
+
+# --------------------------------------------------------------------------
 # the end-to-end runner
 
 def annotate_args(case):
